@@ -107,7 +107,10 @@ def case_st(draw):
     return dict(dim=dim, ss=ss, nw=nw, extra=[list(r) for r in extra], centres=centres,
                 lat=draw(wbsys.lattice_st()), rs=draw(st.integers(0, 2 ** 32)), decay=draw(st.sampled_from([1.0, 0.5, 2.0])),
                 tau=draw(fl(0.5, 1.0, 3)), gap=draw(fl(0.6, 1.5, 3)), T=draw(fl(1000.0, 2000.0, 1)), nE=draw(st.integers(64, 96)),
-                grid=draw(st.integers(0, 2)), use_factor=draw(st.booleans()))
+                grid=draw(st.integers(0, 2)), use_factor=draw(st.booleans()),
+                # hole-like evaluation of the Fermi-sea forms; True comes first so that the fixed minimal example with which
+                # Hypothesis starts (shard 0 of every run) exercises the option: 1 + (N-1)/3 of N cases
+                hole=draw(st.sampled_from([True, False, False])))
 
 
 def own_mesh(dim):
@@ -154,12 +157,14 @@ def calculators(case, Ef, smoother, which="main"):
         kw.update(tetra=False)
         return dict(nldrude_d2=static.NLDrude_Fermider2(**kw))
     it = dict(kwargs_formula={"external_terms": False})
+    # hole_like is an option of the Fermi-sea forms only (fder=0: f -> f-1 and the tetrahedron weights 1-w, see docstring)
+    sea = dict(kw, hole_like=True) if case.get("hole") else kw
     return dict(
-        ohmic_sea=static.Ohmic_FermiSea(**kw), ohmic_surf=static.Ohmic_FermiSurf(**kw),
-        berrydipole_sea=static.BerryDipole_FermiSea(**kw, **it), berrydipole_surf=static.BerryDipole_FermiSurf(**kw, **it),
-        gme_spin_sea=static.GME_spin_FermiSea(**kw), gme_spin_surf=static.GME_spin_FermiSurf(**kw),
-        gme_orb_sea=static.GME_orb_FermiSea(**kw, **it), gme_orb_surf=static.GME_orb_FermiSurf(**kw, **it),
-        nldrude_sea=static.NLDrude_FermiSea(**kw), nldrude_surf=static.NLDrude_FermiSurf(**kw))
+        ohmic_sea=static.Ohmic_FermiSea(**sea), ohmic_surf=static.Ohmic_FermiSurf(**kw),
+        berrydipole_sea=static.BerryDipole_FermiSea(**sea, **it), berrydipole_surf=static.BerryDipole_FermiSurf(**kw, **it),
+        gme_spin_sea=static.GME_spin_FermiSea(**sea), gme_spin_surf=static.GME_spin_FermiSurf(**kw),
+        gme_orb_sea=static.GME_orb_FermiSea(**sea, **it), gme_orb_surf=static.GME_orb_FermiSurf(**kw, **it),
+        nldrude_sea=static.NLDrude_FermiSea(**sea), nldrude_surf=static.NLDrude_FermiSurf(**kw))
 
 
 # (name, sea key, partner key, transposition that must be distinguishable or None for symmetric tensors)
